@@ -211,7 +211,7 @@ C13_OrderAllStep(job, jobN, podsN) == (job.ex /\ ~jobN.ex) => ~\E p \in Mine(pod
 C13_TTLNotEarlyStep(cfg, job, jobN, ttlAt, userDeleted, doneAt, lastFin, viewKill) ==
     (job.ex /\ ~jobN.ex /\ ttlAt # 0 /\ ~userDeleted) =>
         \/ (job.kind = "Finished" /\ ttlAt >= job.fints + cfg.ttl)
-        \/ (viewKill # 0 /\ viewKill # job.kill /\ lastFin = 0 /\ ttlAt >= viewKill + cfg.ttl)
+        \/ (viewKill # 0 /\ viewKill # job.kill /\ viewKill <= ttlAt /\ ttlAt >= (IF lastFin # 0 THEN lastFin ELSE viewKill) + cfg.ttl)
         \/ (doneAt # 0 /\ ttlAt >= doneAt + cfg.ttl)
         \/ (doneAt # 0 /\ lastFin # 0 /\ ttlAt >= lastFin + cfg.ttl)
         \/ (doneAt # 0 /\ lastFin = 0 /\ job.kill # 0 /\ ttlAt >= job.kill + cfg.ttl)
